@@ -2,9 +2,10 @@
 
 Oracle: after EVERY operation of a history, every scenario (of two managers
 registered from the same model object) and the base model are compared with a
-freshly built model carrying exactly that scenario's current settings (the
-harness keeps the record of settings), run by the real engine on an unshared
-object.  A quiescent-point walk reports containers shared between scenarios
+the harness's own Euler interpreter (vlib.refsd) evaluated with exactly that
+scenario's current settings (the harness keeps the record of settings) - an
+oracle that shares no state with the library (a first version used a freshly
+built Model, which would share class-level state).  A quiescent-point walk reports containers shared between scenarios
 (diagnostic only)."""
 import copy
 import itertools
@@ -12,7 +13,7 @@ import random
 
 ID = "C06"
 LEVEL = "exploration"
-TECHNIQUE = "fresh-model differential after every operation of a multi-scenario history; aliasing walk as diagnostic"
+TECHNIQUE = "differential against an independent Euler interpreter (the scenario's current settings) after every operation of a multi-scenario history; aliasing walk as diagnostic"
 RULE = ("base model: 2 named lookups, 3 constants, arrayed converter, 2 stocks; 2 managers x 3 scenarios registered from ONE model object; "
         "operations: register scenario (constants / only-some points), batch run (equation subsets), session with begin-settings, "
         "steps with constant / points settings, session left open, cache reset, REST /run with settings (constants, points, runspecs), "
@@ -62,12 +63,22 @@ def grid(run):
 
 
 def expected(settings):
+    """The scenario's values by the harness's own Euler interpreter (vlib.refsd): independent of anything the library keeps in
+    module- or class-level state (a freshly built Model in this process would share such state with the models under test)."""
+    from vlib import refsd
     consts = dict(BASE["constants"], **settings.get("constants", {}))
     pts = dict(BASE["points"], **settings.get("points", {}))
     rs = settings.get("runspecs", {})
     run = (rs.get("starttime", BASE["run"][0]), rs.get("stoptime", BASE["run"][1]), rs.get("dt", BASE["run"][2]))
-    m = build(consts, pts, run)
-    return {e: {t: float(m.evaluate_equation(e, t)) for t in grid(run)} for e in EQS}
+    spec = dict(run=dict(start=repr(float(run[0])), stop=repr(float(run[1])), dt=repr(float(run[2]))), points={k: [list(p) for p in v] for k, v in pts.items()},
+                elements=[dict(name=n, kind="constant", value=float(consts[n])) for n in ("c1", "c2", "c3")] + [
+                    dict(name="total", kind="constant", value=1.5),          # the sum of the arrayed converter vec = [1.0, 0.5]
+                    dict(name="f1", kind="flow", eq=["bin", "*", ["ref", "c1"], ["lookup", ["time"], "p1"]]),
+                    dict(name="b1", kind="biflow", eq=["bin", "+", ["bin", "+", ["bin", "-", ["ref", "c2"], ["bin", "*", ["ref", "s2"], ["ref", "c3"]]], ["lookup", ["ref", "s1"], "p2"]], ["ref", "total"]]),
+                    dict(name="s1", kind="stock", init=1.0, eq=["ref", "f1"]), dict(name="s2", kind="stock", init=4.0, eq=["ref", "b1"])])
+    table = refsd.Ref(spec).table(conditioning=False)
+    g = grid(run)
+    return {e: {t: float(table[e][k]) for k, t in enumerate(g)} for e in EQS}
 
 
 def gen_cases(tier, seed):
